@@ -545,9 +545,44 @@ def rule_decfloat(facts):
 
 
 
+def rule_floatinf(facts):
+    """Narrowing to a float type: `NumCast::from` maps a finite value that is too large for the target to infinity and reports success
+    (70000::half, 1e300::double::float were `inf`), while every integer target raises a range error. The generic numeric cast kernel
+    therefore has to look at the finiteness of what NumCast produced: a call of is_infinite / is_finite in PrimToPrim::cast or its
+    closures."""
+    r = RuleResult("C13-FLOATINF", "the generic numeric cast kernel tests the finiteness of the converted value (finite input must not become infinity)", floor=1)
+    recs = facts.fns_matching(lambda i: "to_primitive::PrimToPrim<" in i and "CastFunction>::cast" in i)
+    if not recs:
+        r.missing_anchor("PrimToPrim::cast")
+        return r
+    root = [x for x in recs if x["id"].endswith("CastFunction>::cast")]
+    found = []
+    casts = 0
+    for rec in recs:
+        fn = Fn(rec)
+        for c in fn.calls():
+            last = c.name.rsplit("::", 1)[-1]
+            if last in ("is_infinite", "is_finite"):
+                found.append((rec["id"], c.line))
+            elif any(w in str(c.args) for w in ("::is_infinite", "::is_finite")):
+                found.append((rec["id"], c.line))      # passed as a function item: is_some_and(f64::is_infinite)
+            if c.name.endswith("NumCast::from") or c.name.endswith("NumCast>::from"):
+                casts += 1
+    if casts == 0 or not root:
+        r.missing_anchor("PrimToPrim::cast: NumCast::from call")
+        return r
+    ok = bool(found)
+    r.functions.add(root[0]["id"])
+    r.inst({"fn": root[0]["id"], "numcast_calls": casts, "finiteness_tests": len(found)}, ok)
+    if not ok:
+        r.violate(root[0]["id"], "finite-to-infinity", "the kernel accepts whatever NumCast::from returns: a finite value beyond the target float type's range is stored as "
+                  "infinity instead of raising a range error", root[0]["file"], root[0]["line"])
+    return r
+
+
 def run(ctx):
     facts = ctx["facts"]
-    return [rule_flat(facts), rule_tab(facts), rule_narrow(facts), rule_qsign(facts), rule_rtwords(facts), rule_precchk(facts), rule_scalesign(facts), rule_decfloat(facts)]
+    return [rule_flat(facts), rule_tab(facts), rule_narrow(facts), rule_qsign(facts), rule_rtwords(facts), rule_precchk(facts), rule_scalesign(facts), rule_decfloat(facts), rule_floatinf(facts)]
 
 
 CLAIM = {
@@ -556,7 +591,8 @@ CLAIM = {
             "These are the structural preconditions of exact-or-error casting that hold or fail independently of data; kernel values "
             "are not statically decidable here. (NARROW) every narrowing numeric cast kernel obtains its result from a checked conversion "
             "(11 kernels that do not are listed as known findings). Plus: cast kernels, formatters and round() never order-compare a signed quotient with zero (a truncated quotient has lost the dividend's sign)."
-            " Plus RTWORDS (every unit word the interval formatter prints is accepted by the parser) and PRECCHK (decimal-producing cast kernels write only behind validate_precision; the text parser compares with the precision after the last value-changing step).",
+            " Plus RTWORDS (every unit word the interval formatter prints is accepted by the parser) and PRECCHK (decimal-producing cast kernels write only behind validate_precision; the text parser compares with the precision after the last value-changing step)."
+            " Plus SCALESIGN, DECFLOAT and FLOATINF (the generic numeric cast kernel tests the finiteness of the converted value).",
     "note": "trusted: rustc MIR/HIR, the lossless relation coded in rules/c13.py (integer range inclusion, float widening, identity, Null)",
     "technique": "static analysis: MIR edge-dominance (guard provenance) + const-table agreement (rustc_private driver)",
 }
